@@ -161,7 +161,9 @@ MODEL_LAYOUTS = ("none", "m1", "m1m2", "nom1m2", "m1m2m3")
 # the file.  Used with the pristine bases only.
 NUMBERED_LAYOUTS = {"m3m4": (3, 4), "m2m1": (2, 1), "m0m1m2": (0, 1, 2),
                     "m1m1": (1, 1), "m1m2:unpadded": (1, 2),
-                    "m5:unpadded": (5,)}
+                    "m5:unpadded": (5,),
+                    # frames separated by MODEL records only
+                    "m1m2:noendmdl": (1, 2), "nom1m2:noendmdl": (None, 2)}
 
 
 def build_lines(base, layout, flags):
@@ -179,10 +181,12 @@ def build_lines(base, layout, flags):
         lines += base_lines(base, flags, shift=0.25) + ["ENDMDL", "END"]
     elif layout in NUMBERED_LAYOUTS:
         for k, num in enumerate(NUMBERED_LAYOUTS[layout]):
-            rec = (f"MODEL {num}" if layout.endswith(":unpadded")
-                   else f"MODEL     {num:>4}")
-            lines += [rec] + base_lines(base, flags, shift=0.25 * k)
-            lines += ["ENDMDL"]
+            if num is not None:
+                lines += [f"MODEL {num}" if layout.endswith(":unpadded")
+                          else f"MODEL     {num:>4}"]
+            lines += base_lines(base, flags, shift=0.25 * k)
+            if not layout.endswith(":noendmdl"):
+                lines += ["ENDMDL"]
         lines += ["END"]
     elif layout == "m1m2m3":
         lines += ["MODEL        1"] + first + ["ENDMDL", "MODEL        2"]
